@@ -500,20 +500,24 @@ class Framer(tasking.Tasker):
         self.human = ''
         self.active = None
 
-    def checkStart(self):
+    def checkStart(self, claimed=None):
         """checks if framer can be started from first frame
            checking entry needs for first frame's outline
            returns result of checkEnter()
+           claimed is set of original auxiliaries already claimed by the frames
+           of the outline that this framer would be entered with as auxiliary
 
         """
-        return self.checkEnter(enters=self.first.outline)
+        return self.checkEnter(enters=self.first.outline, claimed=claimed)
 
-    def checkEnter(self, enters=[], exits=[]):
+    def checkEnter(self, enters=[], exits=[], claimed=None):
         """checks beacts for frames in enters list
            return on first failure do not keep testing
            assumes enters outline in top down order
            exits list is used by frame.checkEnters to test for original auxiliaries
            that would be exited from thier main frame if transition where allowed
+           claimed is set of original auxiliaries already claimed by frames to be
+           entered together with enters when this framer is itself an auxiliary
         """
         console.profuse("{0}Check enters of {1} Framer {2}\n".format(
             '    ' if self.schedule == AUX or self.schedule == SLAVE else '',
@@ -524,9 +528,10 @@ class Framer(tasking.Tasker):
             console.profuse("    False, empty enters\n")
             return False
 
-        claimed = set()  # original auxes claimed by frames in enters
+        if claimed is None:
+            claimed = set()  # original auxes claimed by frames in enters
         for frame in enters:
-            if not frame.checkEnter(exits=exits):
+            if not frame.checkEnter(exits=exits, claimed=claimed):
                 return False
             for aux in frame.auxes:  # original aux may only have one main frame at a time
                 if aux.original:
@@ -1361,10 +1366,12 @@ class Frame(registering.StoriedRegistrar):
         self.headHuman = human
         return human
 
-    def checkEnter(self, exits=[]):
+    def checkEnter(self, exits=[], claimed=None):
         """Check beacts for self and auxes
            exits is list of exit frames to test if aux main frame would be exited
            if transition allowed
+           claimed is set of original auxiliaries claimed so far by the frames
+           to be entered, shared with the auxes so nested auxes claim too
         """
         console.profuse("    Check enter into {0}\n".format(self.name))
 
@@ -1381,7 +1388,7 @@ class Frame(registering.StoriedRegistrar):
                         " '{1}'\n".format(aux.name, aux.main.name))
                 return False
 
-            if not aux.checkStart(): #performs entry checks beacts
+            if not aux.checkStart(claimed=claimed): #performs entry checks beacts
                 return False
 
         console.profuse("    True all {0}\n".format(self.name))
